@@ -60,7 +60,7 @@ structure Vehicle where
   minPenalty : Rat := 0
 deriving Repr, Inhabited
 
-inductive PUnit
+inductive PlanU
   | stops (ss : List StopIx) (arcs : List (StopIx × StopIx × Bool))
   | units (oneOf : Bool) (members : List UnitIx)
 deriving Repr, Inhabited
@@ -71,7 +71,7 @@ structure Inst where
   travels   : Array Travel := #[]
   dist      : Array (Array Rat) := #[]
   groupDur  : Array Rat := #[]
-  units     : Array PUnit := #[]
+  units     : Array PlanU := #[]
   parent    : Array (Option UnitIx) := #[]
   nres      : Nat := 0
   -- option flags (true = constraint active)
@@ -340,19 +340,28 @@ deriving Repr, Inhabited
 
 def isRoot (inst : Inst) (u : UnitIx) : Bool := (inst.parent.getD u none).isNone
 
-def bookkeepingOK (inst : Inst) (routes : List (List StopIx)) (b : Books) : Option String :=
+def unitKind (inst : Inst) (u : UnitIx) : String :=
+  match inst.units.getD u (.stops [] []) with
+  | .stops ss _ => if ss.length > 1 then "stops-multi" else "stops-single"
+  | .units oneOf _ => if oneOf then "oneof" else "all"
+
+/-- First failing clause of C08 and the unit it fails on. -/
+def bookkeepingBad (inst : Inst) (routes : List (List StopIx)) (b : Books) : Option (String × UnitIx) :=
   let us := List.range inst.units.size
   let cnt := fun (u : UnitIx) => b.planned.count u + b.unplanned.count u + b.fixed.count u
-  if us.any (fun u => isRoot inst u && cnt u = 0) then some "root-unit-in-no-collection"
-  else if us.any (fun u => isRoot inst u && cnt u > 1) then some "root-unit-in-several-collections"
-  else if us.any (fun u => !(isRoot inst u) && cnt u > 0) then some "member-listed-on-its-own"
-  else if us.any (fun u => isRoot inst u && (b.planned.contains u || b.fixed.contains u) && !(unitPlanned inst routes u))
-  then some "listed-planned-but-stops-unplanned"
-  else if us.any (fun u => isRoot inst u && b.unplanned.contains u && unitPlanned inst routes u)
-  then some "listed-unplanned-but-stops-planned"
-  else if us.any (fun u => isRoot inst u && b.unplanned.contains u && unitTouched inst routes u)
-  then some "listed-unplanned-but-some-stops-on-routes"
-  else none
+  let first := fun (c : String) (p : UnitIx → Bool) => (us.find? p).map (fun u => (c, u))
+  (first "root-unit-in-no-collection" (fun u => isRoot inst u && cnt u = 0)).orElse fun _ =>
+  (first "root-unit-in-several-collections" (fun u => isRoot inst u && cnt u > 1)).orElse fun _ =>
+  (first "member-listed-on-its-own" (fun u => !(isRoot inst u) && cnt u > 0)).orElse fun _ =>
+  (first "listed-planned-but-stops-unplanned"
+    (fun u => isRoot inst u && (b.planned.contains u || b.fixed.contains u) && !(unitPlanned inst routes u))).orElse fun _ =>
+  (first "listed-unplanned-but-stops-planned"
+    (fun u => isRoot inst u && b.unplanned.contains u && unitPlanned inst routes u)).orElse fun _ =>
+  (first "listed-unplanned-but-some-stops-on-routes"
+    (fun u => isRoot inst u && b.unplanned.contains u && unitTouched inst routes u))
+
+def bookkeepingOK (inst : Inst) (routes : List (List StopIx)) (b : Books) : Option String :=
+  (bookkeepingBad inst routes b).map (·.1)
 
 /-! ### Objective (C05) -/
 
@@ -389,12 +398,12 @@ def objective (inst : Inst) (routes : List (List StopIx)) : Terms :=
   let early := sumRat (scheds.map (fun (_, r, (ts, _)) => sumRat ((List.zip r ts).map (fun (s, t) =>
     let st := inst.stops.getD s {}
     match st.target with
-    | some tg => if st.early = 0 then 0 else st.early * max 0 (tg - t.arrival)
+    | some tg => st.early * max 0 (tg - t.arrival)
     | none => 0))))
   let late := sumRat (scheds.map (fun (_, r, (ts, _)) => sumRat ((List.zip r ts).map (fun (s, t) =>
     let st := inst.stops.getD s {}
     match st.target with
-    | some tg => if st.late = 0 then 0 else st.late * max 0 (t.arrival - tg)
+    | some tg => st.late * max 0 (t.arrival - tg)
     | none => 0))))
   let roots := (List.range inst.units.size).filter (isRoot inst)
   let unpl := sumRat ((roots.filter (fun u => !(unitPlanned inst routes u))).map (unitCost inst))
